@@ -388,8 +388,12 @@ func (fr *Frame) lookupName(name string, e *Env) (TV, bool) {
 	}
 	// special names
 	if name == "$i" || name == "$visited" {
-		if e.at != nil {
-			for _, in := range e.at.Instrs {
+		hb := e.at
+		if e.loopHead != nil {
+			hb = e.loopHead
+		}
+		if hb != nil {
+			for _, in := range hb.Instrs {
 				if ph, ok := in.(*ssa.Phi); ok && ph.Comment == "rangeindex" && name == "$i" {
 					return TV{T: "(+ " + e.valTerm(ph) + " 1)", Ty: types.Typ[types.Int]}, true
 				}
@@ -405,9 +409,13 @@ func (fr *Frame) lookupName(name string, e *Env) (TV, bool) {
 		}
 		return TV{}, false
 	}
-	// phis at the current block
-	if e.at != nil {
-		for _, in := range e.at.Instrs {
+	// phis at the current block (or at the loop head for back-edge ghost updates)
+	pb := e.at
+	if e.loopHead != nil {
+		pb = e.loopHead
+	}
+	if pb != nil {
+		for _, in := range pb.Instrs {
 			ph, ok := in.(*ssa.Phi)
 			if !ok {
 				break
